@@ -193,6 +193,8 @@ func (s *gState) checkInv(tag string) {
 	}
 	verifAssert(len(w.gated) == w.orderedGated.Len(), tag+".inv.same-size")
 	n := 0
+	prev := time.Time{}
+	limit := time.Unix(0, int64(s.now)).Add(w.Expiration)
 	for e := w.orderedGated.Front(); e != nil; e = e.Next() {
 		n++
 		if n > 6 {
@@ -208,6 +210,10 @@ func (s *gState) checkInv(tag string) {
 		verifAssert(present && got == ge, tag+".inv.map-entry")
 		verifAssert(ge.id != "", tag+".inv.id-nonempty")
 		verifAssert(len(ge.events) >= 1, tag+".inv.group-nonempty")
+		// the ordering the expiry sweep relies on is preserved: expiry instants non-decreasing along the list
+		verifAssert(!ge.exp.Before(prev), tag+".inv.ordered-by-expiry")
+		verifAssert(!ge.exp.After(limit), tag+".inv.expiry-bounded")
+		prev = ge.exp
 	}
 	verifAssert(n == w.orderedGated.Len(), tag+".inv.list-len")
 }
